@@ -20,6 +20,29 @@ CLAIMED = {
         design_ref='DESIGN.md §4 C09', engine='calendar'),
 }
 
+CLAIMED['C03'] = dict(
+    text='Counter.tla models the counter protocol of internal/counter at the granularity of its shared-memory operations (one action per atomic operation / '
+         'mutex acquisition: register, Add, releaseReader, releaseLock, add, lookup/newCounter1 with growth, invalidateCounters, rotate1; bit-exact state word). '
+         'TLC checks UpperBound/NoDeadlock/TypeOK exhaustively per scenario family (first open, rotation, growth) and produces, in the same run, shortest witness '
+         'schedules into 21 named race/branch windows and to every property the design still violates. Those schedules, TLC -simulate walks and random schedules '
+         'are executed on the real package (AST-instrumented copy, cooperative scheduler, use-after-unmap made a deterministic fault); every observed real state is '
+         'judged by TLC against the clauses of the property (CounterObs.tla) and every recorded trace must be a behaviour of Counter.tla (CounterTrace.tla).',
+    note='Bounds: <= 3 adders + 1 rotator, <= 3 counters, amounts of 1 (saturation only in the model). Trusted: the instrumenter (sync/atomic and file.mu are the '
+         'only interleaving points), the scheduler, mprotect emulation of munmap, Go memory model (sequentially consistent atomics). A TLC counter-example alone is '
+         'never a violation; only real executions are.',
+    technique='TLA+ protocol spec + TLC exhaustive/simulate; witness-schedule replay into instrumented real code; TLC trace validation and TLC evaluation of the property on observed states',
+    design_ref='DESIGN.md §4 C03', engine='counter-protocol')
+CLAIMED['C04'] = dict(
+    text='CounterFile.tla models mappedFile.lookup/newCounter/extend and Counter.add across processes at the granularity of every atomic access to mapped memory '
+         'and every Stat/WriteAt/reopen, with Kill(p) enabled everywhere. TLC checks WellFormed/UniqueNames/ValuesExact and monotonicity exhaustively for 2 (thorough: 3) '
+         'processes with same/colliding/distinct names and produces witness schedules into 12 race/kill windows. Schedules (with kills) are executed on emulated processes '
+         '(independent file values over one count file) under the scheduler; after every step the file bytes are decoded by an independent decoder, TLC judges the clauses on '
+         'every observed file state (CounterFileObs.tla) and validates each trace against the model (CounterFileTrace.tla).',
+    note='Processes are emulated in one address space (kernel page-cache coherence trusted); all names have one length (K = 3 records per page); <= 3 processes, one Add each; '
+         'the 10-remap-tries failure is not reached. Liveness (survivors finish) is checked on the model only (thorough).',
+    technique='TLA+ protocol spec + TLC exhaustive/simulate with kills; replay into instrumented real code; independent decoder projection; TLC trace validation',
+    design_ref='DESIGN.md §4 C04', engine='counter-file')
+
 NOT_YET = 'check not built yet in this session (see DESIGN.md §8 build order); will be claimed when its TLA+ module and conformance harness exist'
 
 checks = []
